@@ -225,6 +225,9 @@ def run_program(fx, np, seed, steps, wmax=52):
                 z = Fxp(complex(value(s, w, f), value(s, w, f)), s, w, f)
         except Exception:
             z = None
+            # a call that RAISED may have left the object it was called on half-updated (sizes set, dtype string not yet): what such an
+            # object reports afterwards is not something C02 speaks about (it quantifies over objects RETURNED by public calls)
+            pool[:] = [o for o in pool if o is not x]
         if isinstance(z, Fxp) and z.val is not None and z.n_word is not None:
             try:
                 if 1 <= z.n_word <= wmax or (z.n_word == 0 and not z.signed):       # C02 quantifies over core-domain formats
